@@ -534,6 +534,12 @@ func c08cases(seed int64, i int, keys *gen.KeyRing) []c08case {
 	if r.Bool() {
 		key.BaseIV = r.Bytes(8)
 	}
+	switch r.Intn(12) {
+	case 0:
+		key.ID = []byte{} // a kid that is present and empty (2: h'') is not an absent kid
+	case 1:
+		key.BaseIV = []byte{}
+	}
 	for j := 0; j < r.Intn(5); j++ {
 		if r.Intn(3) == 0 {
 			key.Params[c08texts[r.Intn(len(c08texts))]] = gen.Value(r, 2)
@@ -560,6 +566,9 @@ func c08cases(seed int64, i int, keys *gen.KeyRing) []c08case {
 		}
 		if d.Type != key.Type || d.Algorithm != key.Algorithm || !bytes.Equal(d.ID, key.ID) || !bytes.Equal(d.BaseIV, key.BaseIV) || len(d.Ops) != len(key.Ops) {
 			return "decoded key's common parameters differ from the source"
+		}
+		if (d.ID == nil) != (key.ID == nil) || (d.BaseIV == nil) != (key.BaseIV == nil) {
+			return fmt.Sprintf("a kid / Base IV that is present (possibly empty) in the source is absent after the round trip, or the reverse: kid %v -> %v, Base IV %v -> %v", key.ID != nil, d.ID != nil, key.BaseIV != nil, d.BaseIV != nil)
 		}
 		again, err := d.MarshalCBOR()
 		if err != nil || !bytes.Equal(again, out) {
